@@ -16,6 +16,16 @@ CLAIMED = {
     note="Trusted: Lean kernel; axioms propext, Classical.choice, Quot.sound; the correspondence harness; num-bigint "
          "modelled as Nat/Int. 'No unbounded allocation' is observed (RLIMIT_AS), not proved.",
     technique="Lean 4 proof of a mirror model + differential correspondence check"),
+ "C05": dict(
+    category="translation_validation",
+    text="Every BlockTranslationResult the seven real translators return on a structured byte sweep is judged by a Lean "
+         "checker (width rules of all expressions and operations, entry/exit/edges of each instruction graph, out-edge and "
+         "successor guards recognised as a partition) whose soundness is a Lean theorem over all states; panics are caught "
+         "and reported with their site. Totality over all byte strings is explored, not proved.",
+    design_ref="DESIGN.md §6 C05",
+    note="Trusted: Lean kernel, the FIL printer/reader pair, catch_unwind. 'Never panics/terminates' concerns Rust and C "
+         "code (capstone, bad64) and is observed on the sweep only.",
+    technique="Lean-verified well-formedness checker run on the lifters' real outputs"),
 }
 
 checks = []
